@@ -386,6 +386,10 @@ class BuildFileImpl {
 
     // Iterate over each of the sections in the mapping.
     auto it = mapping->begin();
+    if (it == mapping->end()) {
+      error(node, "expected initial mapping key 'client'");
+      return false;
+    }
     if (!nodeIsScalarString(it->getKey(), "client")) {
       error(it->getKey(), "expected initial mapping key 'client'");
       return false;
